@@ -42,6 +42,8 @@ mod c03;
 mod c28;
 #[cfg(all(kani, feature = "c30"))]
 mod c30;
+#[cfg(all(kani, feature = "c30r"))]
+mod c30r;
 #[cfg(all(kani, feature = "c16"))]
 mod c16;
 #[cfg(all(kani, feature = "c26"))]
